@@ -40,6 +40,7 @@ class Arr:
     dataof: frozenset = E  # for `.data` views: alias of the array it is the data of
     constmask: bool = False  # mask built from a constant
     layermask: bool = False  # stacked value whose mask differs per layer (each layer keeps its own input's mask)
+    unguarded: frozenset = E  # layer selections whose (selection - FUZZY_MIN) divides this value without a guarding where()
     maskalias: frozenset = E  # inputs whose mask buffer this value's mask may share (numpy.ma.array(x, mask=m) does not copy m)
 
 
@@ -184,6 +185,7 @@ class Interp(object):
         self.fresh = 0
         self.inline_via = []
         self.fold = fold
+        self.cond_stack = []
 
     # ---------------------------------------------------------------- bookkeeping
     def site(self, node):
@@ -340,7 +342,11 @@ class Interp(object):
                 f2 = Frame(fr.module, fr.func, fr.cls, _copy_env(env), fr.depth)
                 f2.returns = fr.returns
                 self.refine(s.test, take, f2)
-                self.exec_block(body, f2)
+                self.cond_stack.append((s.test, take, fr))
+                try:
+                    self.exec_block(body, f2)
+                finally:
+                    self.cond_stack.pop()
                 if not f2.env.get("__dead__"):
                     branches.append(f2.env)
             if not branches:
@@ -449,10 +455,26 @@ class Interp(object):
     def exec_for(self, s, fr):
         env = fr.env
         it = self.ev(s.iter, fr)
+        if isinstance(it, Lst) and it.what == "mixed" and it.items is not None and 0 < len(it.items) <= 12 and all(self.constant_like(x) for x in it.items):
+            # a loop over a literal collection (e.g. a rename table): unrolled
+            for item in it.items:
+                self.assign(s.target, item, fr, s)
+                self.exec_block(s.body, fr)
+                if env.get("__dead__"):
+                    return
+            if s.orelse:
+                self.exec_block(s.orelse, fr)
+            return
         elem = self.elem_of(it, s.iter, fr)
         before = _copy_env(env)
         self.assign(s.target, elem, fr, s)
         ST = frozenset(self.list_toks(it))
+        if isinstance(it, Lst) and it.what == "range" and it.sliced is not None:
+            # an index loop: the lists it walks are those of the command's list inputs
+            part = "rest" if it.sliced[0] == 1 else "all"
+            for nm, (kind, _) in self.decl.ref_inputs().items():
+                if kind == "cmdlist":
+                    ST = ST | toks(nm, part)
         self.exec_block(s.body, fr)
         dead = env.pop("__dead__", None)
         for name in list(env):
@@ -468,6 +490,15 @@ class Interp(object):
                 env[name] = self.join(b, a)
         if s.orelse:
             self.exec_block(s.orelse, fr)
+
+    def constant_like(self, x):
+        if isinstance(x, Other) and x.tag in ("str", "bool", "none", "type") and (x.tag != "str" or isinstance(x.info, str)):
+            return True
+        if isinstance(x, Scal) and x.const is not None:
+            return True
+        if isinstance(x, Lst) and x.items is not None:
+            return all(self.constant_like(y) or isinstance(y, (Scal, Other)) for y in x.items) and any(self.constant_like(y) for y in x.items)
+        return False
 
     def list_toks(self, x):
         out = set()
@@ -511,7 +542,7 @@ class Interp(object):
                 dtprov=a.dtprov | b.dtprov, rng=(a.rng[0] if a.rng[0] == b.rng[0] else None, a.rng[1] if a.rng[1] == b.rng[1] else None),
                 sel=a.sel if a.sel == b.sel else None, sorted0=a.sorted0 and b.sorted0, filearr=a.filearr or b.filearr,
                 maskof=a.maskof | b.maskof, dataof=a.dataof | b.dataof, constmask=a.constmask or b.constmask,
-                layermask=a.layermask or b.layermask, maskalias=a.maskalias | b.maskalias,
+                layermask=a.layermask or b.layermask, maskalias=a.maskalias | b.maskalias, unguarded=a.unguarded | b.unguarded,
             )
         if isinstance(a, Scal) and isinstance(b, Scal):
             return Scal(D=a.D | b.D, Pg=a.Pg | b.Pg, dt=a.dt | b.dt, const=a.const if a.const == b.const else None,
@@ -559,6 +590,10 @@ class Interp(object):
     def const_key(self, e, fr):
         if isinstance(e, ast.Constant):
             return e.value
+        if isinstance(e, ast.Name) and e.id in fr.env:
+            v = fr.env[e.id]
+            if isinstance(v, Other) and v.tag == "str" and isinstance(v.info, str):
+                return v.info
         try:
             return self.idx.const(fr.module, e, fr.func)
         except KeyError:
@@ -586,6 +621,8 @@ class Interp(object):
             if it.what == "enum":
                 return Lst("mixed", items=(Scal(dt=I_), self.elem_of(it.elem, node, fr)))
             if it.what == "range":
+                if it.sliced is not None:
+                    return Scal(dt=I_, sym="idx@%d" % it.sliced[0])
                 return Scal(dt=I_)
             if it.what in ("opaque", "mixed", "shape"):
                 return Other("opaque")
@@ -916,11 +953,11 @@ class ArrayInterp(Interp):
                         r = self.binop_arr(r, v, ast.Add(), e, fr) if isinstance(r, Arr) else r
                 cmp = None
                 if len(vals) == 2 and isinstance(vals[0], Arr) and isinstance(vals[1], Scal) and scal_id(vals[1]) is not None:
-                    cmp = (vals[0].alias | vals[0].dataof, type(e.ops[0]).__name__, scal_id(vals[1]))
+                    cmp = (vals[0].alias | vals[0].dataof, type(e.ops[0]).__name__, scal_id(vals[1]), vals[0].sel)
                 elif len(vals) == 2 and isinstance(vals[1], Arr) and isinstance(vals[0], Scal) and scal_id(vals[0]) is not None:
                     flip = {"Gt": "Lt", "Lt": "Gt", "GtE": "LtE", "LtE": "GtE"}.get(type(e.ops[0]).__name__)
                     if flip:
-                        cmp = (vals[1].alias | vals[1].dataof, flip, scal_id(vals[0]))
+                        cmp = (vals[1].alias | vals[1].dataof, flip, scal_id(vals[0]), vals[1].sel)
                 return replace(r, isbool=True, dt=B_, alias=self.S(e), rng=(None, None), cmp=cmp, maskof=E, dataof=E, sel=None)
             if any(isinstance(o, (ast.In, ast.NotIn)) for o in e.ops) and isinstance(vals[1], Kw) and isinstance(e.left, ast.Constant):
                 k = e.left.value
@@ -960,7 +997,17 @@ class ArrayInterp(Interp):
                 return self.ev(e.body, fr)
             if const is False:
                 return self.ev(e.orelse, fr)
-            return self.join(self.ev(e.body, fr), self.ev(e.orelse, fr))
+            self.cond_stack.append((e.test, True, fr))
+            try:
+                vb = self.ev(e.body, fr)
+            finally:
+                self.cond_stack.pop()
+            self.cond_stack.append((e.test, False, fr))
+            try:
+                vo = self.ev(e.orelse, fr)
+            finally:
+                self.cond_stack.pop()
+            return self.join(vb, vo)
         if isinstance(e, (ast.List, ast.Tuple)):
             return Lst("mixed", items=tuple(self.ev(x, fr) for x in e.elts))
         if isinstance(e, ast.Set):
@@ -1133,6 +1180,10 @@ class ArrayInterp(Interp):
             if is_slice:
                 return base if base.what != "mixed" else Lst("mixed", items=base.items)
             return self.elem_of(base, e, fr)
+        if base.what in ("arrs", "cmds", "masks") and isinstance(idx, Scal) and idx.sym in ("idx@0", "idx@1") and base.part == "all":
+            # element chosen by the loop index of `for i in range(start, len(...))`: the generic element of that part
+            sub = replace(base, part="rest" if idx.sym == "idx@1" else "all")
+            return self.part_elem(sub) if base.what != "cmds" else Cmd(base.L, sub.part)
         if base.what in ("arrs", "cmds", "masks"):
             if isinstance(idx, Scal) and idx.const == 0 and base.part == "all":
                 sub = replace(base, part="first")
@@ -1154,7 +1205,10 @@ class ArrayInterp(Interp):
                 lo, hi = idx.info
                 return replace(base, sliced=(lo.const if isinstance(lo, Scal) else None, hi.const if isinstance(hi, Scal) else None))
             el = base.elem if isinstance(base.elem, Scal) else Scal()
-            return Scal(D=el.D, Pg=el.Pg, dt=el.dt, sym="%s[%s]" % (",".join(base.srcs), idx.const if isinstance(idx, Scal) else "?"))
+            which = "?"
+            if isinstance(idx, Scal):
+                which = idx.const if idx.const is not None else (idx.sym if idx.sym in ("idx@0", "idx@1") else "?")
+            return Scal(D=el.D, Pg=el.Pg, dt=el.dt, sym="%s[%s]" % (",".join(base.srcs), which))
         if base.what == "pairs":
             if is_slice:
                 return base
@@ -1175,7 +1229,7 @@ class ArrayInterp(Interp):
                 sel = ("Top", -idx.const) if idx.const < 0 else ("Bottom", idx.const + 1)
                 if not base.sorted0:
                     sel = ("Layer", idx.const)
-                self.res.layer_reads.append((e, sel, base.sorted0, self.fkey(fr)))
+                self.res.layer_reads.append((e, sel, base.sorted0, self.fkey(fr), tuple((t, p) for t, p, _ in self.cond_stack)))
                 return replace(base, shape="same" if base.shape == "stacked" else "unknown", sel=sel, alias=base.alias, M=E if base.layermask else base.M, layermask=False)
             if is_slice:
                 lo, hi = idx.info
@@ -1193,7 +1247,7 @@ class ArrayInterp(Interp):
                     sel = ("?", _src(e.slice))
                 if not base.sorted0:
                     sel = ("UnsortedSlice", _src(e.slice))
-                self.res.layer_reads.append((e, sel, base.sorted0, self.fkey(fr)))
+                self.res.layer_reads.append((e, sel, base.sorted0, self.fkey(fr), tuple((t, p) for t, p, _ in self.cond_stack)))
                 return replace(base, sel=sel, alias=base.alias)
             if isinstance(idx, Arr) and idx.isbool:
                 return replace(base, shape="flat", alias=self.S(e), D=base.D | idx.D)
@@ -1305,7 +1359,12 @@ class ArrayInterp(Interp):
         if isinstance(b, Arr) and b.shape != a.shape:
             shape = "unknown"
         isbool = a.isbool and isinstance(op, (ast.BitOr, ast.BitAnd, ast.BitXor))
-        return Arr(kind=kind, isbool=isbool, alias=a.alias if inplace else self.S(node), M=M, D=a.D | bD, Pc=Pc, Pg=Pg, shape=shape, dt=dt,
+        ung = a.unguarded | getattr(b, "unguarded", E)
+        if isinstance(op, (ast.Div, ast.FloorDiv, ast.Mod)):
+            divisor = a if swapped else b
+            if isinstance(divisor, Arr) and divisor.sel and isinstance(divisor.sel, tuple) and divisor.sel and divisor.sel[0] in ("Top", "Bottom", "Layer"):
+                ung = ung | {divisor.sel}
+        return Arr(unguarded=ung, kind=kind, isbool=isbool, alias=a.alias if inplace else self.S(node), M=M, D=a.D | bD, Pc=Pc, Pg=Pg, shape=shape, dt=dt,
                    dtprov=a.dtprov if inplace else a.dtprov | getattr(b, "dtprov", E), rng=(None, None), sel=a.sel if not isinstance(b, Arr) else (a.sel, b.sel) if (a.sel or b.sel) else None,
                    sorted0=False, filearr=a.filearr, maskof=a.maskof if inplace else E, dataof=a.dataof if inplace else E,
                    constmask=a.constmask and (not isinstance(b, Arr) or b.constmask))
@@ -1454,6 +1513,12 @@ class ArrayInterp(Interp):
             return Other("none")
         if meth == "copy":
             return base.copy()
+        if meth == "items":
+            return Lst("mixed", items=tuple(Lst("mixed", items=(Other("str", k), v)) for k, v in base.d.items()))
+        if meth == "keys":
+            return Lst("mixed", items=tuple(Other("str", k) for k in base.d))
+        if meth == "values":
+            return Lst("mixed", items=tuple(base.d.values()))
         return Other("opaque")
 
     def opt(self, v):
@@ -1656,6 +1721,23 @@ class ArrayInterp(Interp):
         S = lambda: self.S(e)  # noqa: E731
         a0 = A[0] if A else None
         short = qn.replace("builtins.", "")
+        if qn.startswith("operator.") or qn.startswith("_operator."):
+            nm = qn.split(".")[-1].strip("_")
+            ops = {"add": ast.Add(), "iadd": ast.Add(), "sub": ast.Sub(), "isub": ast.Sub(), "mul": ast.Mult(), "imul": ast.Mult(), "truediv": ast.Div(), "itruediv": ast.Div(),
+                   "floordiv": ast.FloorDiv(), "mod": ast.Mod(), "pow": ast.Pow(), "and": ast.BitAnd(), "or": ast.BitOr(), "xor": ast.BitXor()}
+            if nm in ops and len(A) == 2:
+                if isinstance(ops[nm], (ast.Div, ast.FloorDiv, ast.Mod)) and any(isinstance(x, Arr) for x in A):
+                    self.res.divisions.append((e.lineno, A[0], A[1], e, self.fkey(fr)))
+                if nm.startswith("i") and nm != "invert" and isinstance(A[0], Arr):
+                    self.write_site(A[0], e, "in-place operator.%s" % nm, fr)
+                    return self.binop_arr(A[0], A[1], ops[nm], e, fr, inplace=True)
+                return self.binop(A[0], A[1], ops[nm], e, fr)
+            if nm in ("neg", "pos", "abs") and A and isinstance(A[0], Arr):
+                return replace(A[0], alias=S(), rng=(None, None), maskof=E, dataof=E, cmp=None)
+            if nm in ("lt", "le", "gt", "ge", "eq", "ne") and len(A) == 2 and any(isinstance(x, Arr) for x in A):
+                arr = A[0] if isinstance(A[0], Arr) else A[1]
+                return replace(arr, isbool=True, dt=B_, alias=S(), rng=(None, None), cmp=None, maskof=E, dataof=E)
+            return Other("opaque", qn)
         # ---- numpy / numpy.ma constructors and copies
         if qn == "numpy.copy":
             if isinstance(a0, Arr):
@@ -1722,7 +1804,7 @@ class ArrayInterp(Interp):
             if cond is not None and isinstance(cond, Arr):
                 m = replace(cond, isbool=True)
             else:
-                m = Arr(kind="plain", isbool=True, alias=S(), M=E, shape=x.shape, dt=B_, cmp=(x.alias | x.dataof, op, scal_id(val)))
+                m = Arr(kind="plain", isbool=True, alias=S(), M=E, shape=x.shape, dt=B_, cmp=(x.alias | x.dataof, op, scal_id(val), x.sel))
             cp = K.get("copy")
             fresh = not (isinstance(cp, Other) and cp.info is False)
             out = replace(x, kind="masked", alias=S() if fresh else x.alias | S(), M=(x.M if x.kind == "masked" else E) | (m.M if isinstance(m, Arr) else E), maskof=E, dataof=E,
@@ -1829,7 +1911,19 @@ class ArrayInterp(Interp):
                 c = A[0]
                 Pc = r.Pc
                 cmpv = c.cmp if isinstance(c, Arr) and all(isinstance(x, Other) and x.tag == "bool" for x in A[1:3]) else None
-                return replace(r, isbool=cmpv is not None, kind="masked", alias=S(), dt=dt, dtprov=E, D=D, Pg=Pg, M=M, Pc=Pc, rng=(None, None), cmp=cmpv, maskof=E, dataof=E, sel=None, constmask=False)
+                ung = E
+                xv, yv = (A + [None, None, None])[1:3]
+                for side, other in ((xv, yv), (yv, xv)):
+                    if isinstance(side, Arr):
+                        u = side.unguarded
+                        if isinstance(c, Arr) and c.cmp is not None and len(c.cmp) > 3 and isinstance(other, Scal) and other.const is not None and other.const == (c.cmp[2][1] if c.cmp[2] and c.cmp[2][0] == "c" else None):
+                            # where(sel <= bound, bound, quotient): the quotient is used only where sel > bound
+                            quotient_is_else = side is yv
+                            ok_op = (c.cmp[1] in ("LtE", "Eq") and quotient_is_else) or (c.cmp[1] in ("Gt", "NotEq") and not quotient_is_else)
+                            if ok_op:
+                                u = u - {c.cmp[3]}
+                        ung = ung | u
+                return replace(r, isbool=cmpv is not None, kind="masked", alias=S(), dt=dt, dtprov=E, D=D, Pg=Pg, M=M, Pc=Pc, rng=(None, None), cmp=cmpv, maskof=E, dataof=E, sel=None, constmask=False, unguarded=ung)
             # numpy.where(c, a, b): plain; when used to build a mask keep coverage of boolean operands
             allbool = all((isinstance(x, Arr) and x.isbool) or (isinstance(x, Other) and x.tag == "bool") for x in A[1:3])
             c = A[0]
@@ -1982,6 +2076,14 @@ class ArrayInterp(Interp):
         if short in ("set", "frozenset"):
             return Other("set")
         if short == "range":
+            lo = 0
+            stop = A[-1] if A else None
+            if len(A) >= 2 and isinstance(A[0], Scal) and isinstance(A[0].const, int):
+                lo = A[0].const
+            elif len(A) >= 2:
+                lo = None
+            if isinstance(stop, Scal) and stop.sym and stop.sym.startswith("len(") and lo in (0, 1) and len(A) <= 2:
+                return Lst("range", sliced=(lo, None), srcs=(stop.sym,))
             return Lst("range")
         if short == "dict":
             if isinstance(a0, Kw):
